@@ -179,8 +179,35 @@ static void describe_set(res_t *r, jwk_set_t *set)
 	}
 }
 
+static const char *hard_outcome;	/* set by a scenario when something is wrong whatever was reported */
+static char *VTOK[NKEY + 1][5];
+/* a keyring that is in use gets more keys: whatever happens to the append, the keys that were there stay (builders and checkers point to them) */
+static void scen_append(const scen_t *s, res_t *r)
+{
+	jwk_set_t *set = jwks_create(JWK_PRIV[0]), *s2;
+	const jwk_item_t *a;
+	jwt_checker_t *c;
+	if (!set || jwks_error(set) || jwks_item_count(set) != 1 || jwks_item_error(jwks_item_get(set, 0))) { r->reported = 1; jwks_free(set); return; }
+	a = jwks_item_get(set, 0);
+	s2 = s->variant == 7 ? jwks_load(set, JWK_PRIV[s->key]) : jwks_load_strn(set, JWK_PUB[2], strlen(JWK_PUB[2]));
+	if (!s2 || jwks_error(set)) r->reported = 1;
+	if (jwks_item_count(set) < 1 || jwks_item_get(set, 0) != a) hard_outcome = "OLDER-KEY-GONE-AFTER-FAILED-APPEND";
+	else {
+		c = jwt_checker_new();
+		if (!c) r->reported = 1;
+		else {
+			if (jwt_checker_setkey(c, (jwt_alg_t)KALG[0], a)) r->reported = 1;
+			else { int rc = jwt_checker_verify(c, VTOK[0][0]); if (rc) r->reported = 1; res_addf(r, "older-key-verify=%d;", rc != 0); }
+			jwt_checker_free(c);
+		}
+	}
+	describe_set(r, set);
+	jwks_free(set);
+}
+
 static void scen_load(const scen_t *s, res_t *r)
 {
+	if (s->variant >= 7) { scen_append(s, r); return; }
 	jwk_set_t *set = NULL;
 	char doc[12000];
 	switch (s->variant) {
@@ -332,7 +359,7 @@ static void scen_gen(const scen_t *s, res_t *r)
 	if (tok) { res_addf(r, "%s", tok); free(tok); }
 }
 
-static char *VTOK[NKEY + 1][5];	/* per key: valid, bad-signature, expired, wrong-iss ; [NKEY]: alg none token */
+/* VTOK (declared above): per key: valid, bad-signature, expired, wrong-iss ; [NKEY]: alg none token */
 static char *VREAL[2];	/* correctly signed HS256 / alg-none tokens whose exp and nbf are JSON reals (long expired): whatever the library does with such dates */
 static char *VBIG[2];	/* valid HS256 (key 0) and alg-none tokens with a 6000-character claim */
 static void scen_verify(const scen_t *s, res_t *r)
@@ -434,6 +461,9 @@ int main(int argc, char **argv)
 		add_scen("load:fromfile:ec", T_LOAD, 0, 2, 4);
 		add_scen("load:fromfp:okp", T_LOAD, 1, 3, 5);
 		add_scen("load:fromfile:rsa", T_LOAD, 0, 1, 4);
+		add_scen("load:append-rsa-to-set-in-use", T_LOAD, 0, 1, 7);
+		add_scen("load:append-ec-to-set-in-use", T_LOAD, 1, 2, 7);
+		add_scen("load:append-strn-to-set-in-use", T_LOAD, 0, 2, 8);
 		add_scen("generate:HS256:jwt_t-api-in-callback:p0", T_GEN, 0, 0, 4);
 		add_scen("generate:ES256:jwt_t-api-in-callback:p1", T_GEN, 1, 2, 4);
 		add_scen("generate:HS256:5000-char-claim:p0", T_GEN, 0, 0, 5);
@@ -492,7 +522,8 @@ int main(int argc, char **argv)
 			run_scenario(s, &got);
 			inject_on = 0;
 			quarantine_release();
-			if (alloc_count < k) outcome = "not-reached";
+			if (hard_outcome) { outcome = hard_outcome; hard_outcome = NULL; }
+			else if (alloc_count < k) outcome = "not-reached";
 			else if (s->kind == T_VERIFY) {
 				if (got.reported) outcome = "reported";
 				else if (got.rc != 0) outcome = base.rc != 0 ? "same" : "reported";
